@@ -192,6 +192,112 @@ Theorem C13_accepts_prepared_surface_exact : forall (P : Type) (V : list P) (F :
 Proof. exact @prepared_input_exact. Qed.
 Print Assumptions C13_accepts_prepared_surface_exact.
 
+(* ------------------------------------------------------------------ border edges and connected components *)
+(* border edges of the refined surface = the two halves of the border edges: a border cycle becomes the cycle of its halves *)
+Theorem C13_border_loop : forall (P : Type) (O : pops P) (r r' : raw P) (x : Z * Z),
+  loop_step O r = Ok r' -> Forall (covered (re r)) (rf r) -> oriented_tri (nV r) (rf r) ->
+  (is_border (dedges_all (rf r')) x <-> exists e, is_border (dedges_all (rf r)) e /\ In x (hsplit (mid_of r) e)).
+Proof. exact @loop_step_border. Qed.
+Print Assumptions C13_border_loop.
+
+Theorem C13_border_3quads : forall (P : Type) (O : pops P) (r r' : raw P) (x : Z * Z),
+  q3_core O r = Ok r' -> Forall (covered (re r)) (rf r) -> oriented_tri (nV r) (rf r) ->
+  (is_border (dedges_all (rf r')) x <-> exists e, is_border (dedges_all (rf r)) e /\ In x (hsplit (q3_mid_of r) e)).
+Proof. exact @q3_core_border. Qed.
+Print Assumptions C13_border_3quads.
+
+Theorem C13_border_fan : forall (P : Type) (O : pops P) (r r' : raw P) (f : Z) (x : Z * Z),
+  split_face_as_fan O r f = Ok r' -> oriented_poly (nV r) (rf r) ->
+  (is_border (dedges_all (rf r')) x <-> is_border (dedges_all (rf r)) x).
+Proof. exact @fan_border. Qed.
+Print Assumptions C13_border_fan.
+
+Theorem C13_border_quad_split_partial : forall (P : Type) (O : pops P) (r r' : raw P) (f A B C D0 : Z) (x : Z * Z),
+  getz (rf r) f = Ok [A; B; C; D0] -> triangulate_face O r f = Ok r' ->
+  ~ In (B, D0) (dedges_all (rf r)) -> ~ In (D0, B) (dedges_all (rf r)) ->
+  (is_border (dedges_all (rf r')) x <-> is_border (dedges_all (rf r)) x).
+Proof. exact @quad_split_border. Qed.
+Print Assumptions C13_border_quad_split_partial.
+
+(* two old vertices are joined by an edge path afterwards iff they were before; every vertex of the refined surface is
+   joined to an old vertex: the components are in bijection *)
+Theorem C13_components_loop : forall (P : Type) (O : pops P) (r r' : raw P),
+  loop_step O r = Ok r' -> WF r -> oriented_tri (nV r) (rf r) ->
+  (forall a b, vert_ok (nV r) a -> vert_ok (nV r) b -> (conn (dedges_all (rf r)) a b <-> conn (dedges_all (rf r')) a b)) /\
+  (forall x, In x (dedges_all (rf r')) -> conn (dedges_all (rf r')) (fst x) (pi_ref r (fst x)) /\ vert_ok (nV r) (pi_ref r (fst x))).
+Proof. exact @loop_step_components. Qed.
+Print Assumptions C13_components_loop.
+
+Theorem C13_components_3quads : forall (P : Type) (O : pops P) (r r' : raw P),
+  q3_core O r = Ok r' -> WF r -> oriented_tri (nV r) (rf r) ->
+  (forall a b, vert_ok (nV r) a -> vert_ok (nV r) b -> (conn (dedges_all (rf r)) a b <-> conn (dedges_all (rf r')) a b)) /\
+  (forall x, In x (dedges_all (rf r')) -> conn (dedges_all (rf r')) (fst x) (pi_ref r (fst x)) /\ vert_ok (nV r) (pi_ref r (fst x))).
+Proof. exact @q3_core_components. Qed.
+Print Assumptions C13_components_3quads.
+
+Theorem C13_components_fan : forall (P : Type) (O : pops P) (r r' : raw P) (f : Z) (F : list Z),
+  getz (rf r) f = Ok F -> split_face_as_fan O r f = Ok r' -> oriented_poly (nV r) (rf r) ->
+  let pi := fun v => if v =? nV r then hd 0 F else v in
+  (forall a b, vert_ok (nV r) a -> vert_ok (nV r) b -> (conn (dedges_all (rf r)) a b <-> conn (dedges_all (rf r')) a b)) /\
+  (forall x, In x (dedges_all (rf r')) -> conn (dedges_all (rf r')) (fst x) (pi (fst x)) /\ vert_ok (nV r) (pi (fst x))).
+Proof. exact @fan_components. Qed.
+Print Assumptions C13_components_fan.
+
+Theorem C13_components_quad_split : forall (P : Type) (O : pops P) (r r' : raw P) (f A B C D0 : Z),
+  getz (rf r) f = Ok [A; B; C; D0] -> triangulate_face O r f = Ok r' ->
+  forall a b, conn (dedges_all (rf r)) a b <-> conn (dedges_all (rf r')) a b.
+Proof. exact @quad_split_components. Qed.
+Print Assumptions C13_components_quad_split.
+
+(* ------------------------------------------------------------------ whole loops *)
+(* guard (cuts_free): no quad's cut B-D is joined yet, and different quads have different cuts *)
+Theorem C13_topology_triangulate_manifold_partial : forall (P : Type) (O : pops P) (r r' : raw P),
+  triangulate O r = Ok r' -> oriented_poly (nV r) (rf r) -> cuts_free (rf r) -> oriented_tri (nV r') (rf r').
+Proof. exact @triangulate_oriented. Qed.
+Print Assumptions C13_topology_triangulate_manifold_partial.
+
+(* one round of subdivide_triangles_6 (3 quads, then every quad cut): the guard is discharged *)
+Theorem C13_topology_tri6_round_manifold : forall (P : Type) (O : pops P) (s s' : sstate),
+  tri6_step O s = Ok s' ->
+  WF (cur s) -> oriented_tri (nV (cur s)) (rf (cur s)) -> simple_tri (rf (cur s)) ->
+  oriented_tri (nV (cur s')) (rf (cur s')).
+Proof. exact @tri6_step_oriented. Qed.
+Print Assumptions C13_topology_tri6_round_manifold.
+
+(* ------------------------------------------------------------------ split_double_boundary_edges_triangles *)
+Theorem C13_split_double_selection : forall (P : Type) (r : raw P) (pb : list Z),
+  sd_faces r = Ok pb ->
+  forall i, In i pb <-> exists F, getz (rf r) i = Ok F /\ has_degree2_vertex (degrees (Zlen (rv r)) (re r)) F.
+Proof. exact @sd_faces_spec. Qed.
+Print Assumptions C13_split_double_selection.
+
+Theorem C13_split_double_block : forall (P : Type) (O : pops P) (a : raw P) (p : prepared) (ch : bool),
+  split_double O a = Ok (p, ch) ->
+  exists pb, sd_faces a = Ok pb /\
+    ((pb = [] /\ ch = false /\ pr p = a) \/
+     (pb <> [] /\ ch = true /\ exists res, run_surface O a (map Fan pb) = Ok res /\ p = res_mesh res)).
+Proof. exact @split_double_spec. Qed.
+Print Assumptions C13_split_double_block.
+
+(* ------------------------------------------------------------------ tetrahedral splits: oriented sides of the pieces *)
+Theorem C13_topology_cell_fan_sides : forall A B C D ib : Z,
+  exists I I', Permutation (sides_of (cf_replace A B C D ib :: cf_cells A B C D ib)) (tet_faces [A; B; C; D] ++ I ++ I') /\
+               Forall2 opposite I I' /\ length I = 6%nat /\ Forall (fun t => In ib t) I.
+Proof. exact cell_fan_sides. Qed.
+Print Assumptions C13_topology_cell_fan_sides.
+
+Theorem C13_topology_face_centre_sides : forall (v0 v1 v2 v3 ic iF : Z) (cells : list (list Z)),
+  0 <= iF < 4 -> fc_new_cells [v0; v1; v2; v3] (Some iF) ic = Ok cells ->
+  let old := tet_faces [v0; v1; v2; v3] in
+  let split := nth (Z.to_nat iF) old [] in
+  exists kept pieces I I',
+    Permutation old (split :: kept) /\
+    Permutation (sides_of cells) (kept ++ pieces ++ I ++ I') /\
+    Forall2 opposite I I' /\ length I = 3%nat /\ Forall (fun t => In ic t) I /\
+    Forall2 rotated (map (fun e => [fst e; snd e; ic]) (dedges split)) pieces.
+Proof. exact face_centre_sides. Qed.
+Print Assumptions C13_topology_face_centre_sides.
+
 (* ================================================================== geometry over any field *)
 Theorem C13_geometry_midpoints :
   forall (F : Type) (f0 f1 : F) (fadd fmul fsub : F -> F -> F) (fopp : F -> F) (fdiv : F -> F -> F) (finv : F -> F),
